@@ -18,5 +18,5 @@ func TestC03P(t *testing.T) {
 		t.Fatalf("VERIF-INFRA registry: %v", err)
 	}
 	st.Extra("generated_structs", len(r.Keys))
-	r.RunC03(t, st, 6000, 100000)
+	r.RunC03(t, st, 6000, 400000)
 }
